@@ -68,8 +68,33 @@ impl<'a> Which<'a> {
             Which::Buf(_) => 5,
         }
     }
+    /// size of the extended alphabet: the base operations followed by further call forms (exact multiples of the
+    /// backend width, single-block and write_* entry points, caller-supplied closures).  Used at depth 1 by C16 and
+    /// throughout by C17.
+    pub fn n_ops_ext(&self) -> usize {
+        self.n_ops()
+            + match self {
+                Which::Bm(_) => 3,
+                Which::Core(_) => 4,
+                Which::Stream(_) => 1,
+                Which::Buf(_) => 1,
+            }
+    }
     pub fn op_name(&self, cfg: &Cfg, op: usize) -> String {
         let par = crate::util::par_of(cfg);
+        if op >= self.n_ops() {
+            return match (self, op - self.n_ops()) {
+                (Which::Bm(_), 0) => format!("blocks({par})"),
+                (Which::Bm(_), 1) => format!("with_backend(caller closure: par groups then singles, {par} blocks)"),
+                (Which::Bm(_), _) => "block_b2b()".into(),
+                (Which::Core(_), 0) => "apply_keystream_block_inout()".into(),
+                (Which::Core(_), 1) => "write_keystream_block()".into(),
+                (Which::Core(_), 2) => format!("process_with_backend(caller closure, {par} blocks)"),
+                (Which::Core(_), _) => format!("apply_keystream_blocks_inout({par})"),
+                (Which::Stream(_), _) => format!("apply_keystream_inout({})", 2 * cfg.bs + 3),
+                (Which::Buf(_), _) => format!("process({})", 2 * cfg.bs),
+            };
+        }
         match (self, op) {
             (Which::Bm(_), 0) => "block()".into(),
             (Which::Bm(_), 1) => format!("blocks_b2b({})", par + 1),
@@ -109,6 +134,21 @@ impl Obj {
             Obj::Bm(b, g) => {
                 let g = *g;
                 match op {
+                    3 => {
+                        let mut o = data[..par * g].to_vec();
+                        let _ = b.many(Kind::InPlace, &[], &mut o);
+                        o
+                    }
+                    4 => {
+                        let mut o = data[..par * g].to_vec();
+                        b.many_closure(1, &mut o);
+                        o
+                    }
+                    5 => {
+                        let mut o = dirty(g);
+                        b.one(Kind::B2b, &data[..g], &mut o);
+                        o
+                    }
                     0 => {
                         let mut o = data[..g].to_vec();
                         b.one(Kind::InPlace, &[], &mut o);
@@ -123,7 +163,27 @@ impl Obj {
                     _ => b.iv_state(),
                 }
             }
-            Obj::Core(c) => match op {
+            Obj::Core(c) => match if op >= (if c.get_block_pos().is_some() { 4 } else { 3 }) { 10 + op - (if c.get_block_pos().is_some() { 4 } else { 3 }) } else { op } {
+                10 => {
+                    let mut o = data[..bs].to_vec();
+                    c.apply_block(Kind::InPlace, &[], &mut o);
+                    o
+                }
+                11 => {
+                    let mut o = dirty(bs);
+                    c.write_block(&mut o);
+                    o
+                }
+                12 => {
+                    let mut o = dirty(par * bs);
+                    c.write_blocks_closure(1, &mut o);
+                    o
+                }
+                13 => {
+                    let mut o = dirty(par * bs);
+                    let _ = c.apply_blocks(Kind::B2b, &data[..par * bs], &mut o);
+                    o
+                }
                 0 => {
                     let mut o = data[..bs].to_vec();
                     let _ = c.apply_blocks(Kind::InPlace, &[], &mut o);
@@ -157,7 +217,14 @@ impl Obj {
                     vec![w as u8]
                 }
             },
-            Obj::Stream(s) => match op {
+            Obj::Stream(s) => match if op >= (if s.pos(SeekTy::U64).is_some() { 4 } else { 2 }) { 10 } else { op } {
+                10 => {
+                    let n = 2 * bs + 3;
+                    let mut o = dirty(n);
+                    let r = s.apply(Kind::InOut, &data[..n], &mut o);
+                    o.push(r.is_ok() as u8);
+                    o
+                }
                 0 => {
                     let mut o = data[..1].to_vec();
                     let r = s.apply(Kind::InPlace, &[], &mut o);
@@ -174,6 +241,11 @@ impl Obj {
                 _ => format!("{:?}{:?}", s.pos(SeekTy::U128), s.core_remaining()).into_bytes(),
             },
             Obj::Buf(b) => match op {
+                5 => {
+                    let mut o = data[..2 * bs].to_vec();
+                    b.process(&mut o);
+                    o
+                }
                 0 => {
                     let mut o = data[..1].to_vec();
                     b.process(&mut o);
